@@ -173,7 +173,16 @@ func (in *Interp) abort(format string, a ...interface{}) {
 }
 
 func (in *Interp) rtPanic(msg string) {
-	panic(targetPanic{Iface{t: types.Typ[types.String], v: "runtime error: " + msg}})
+	where := ""
+	if fr := in.curFrame; fr != nil {
+		if fr.cur != nil {
+			where = " at " + fr.fn.Prog.Fset.Position(fr.cur.Pos()).String()
+		}
+		for c, n := fr, 0; c != nil && n < 6; c, n = c.caller, n+1 {
+			where += " <- " + c.fi.name
+		}
+	}
+	panic(targetPanic{Iface{t: types.Typ[types.String], v: "runtime error: " + msg + where}})
 }
 
 func (fr *frame) runDefer(d *deferred) {
@@ -651,6 +660,9 @@ func (in *Interp) runFrame(fr *frame) {
 			where := fr.fi.name
 			if fr.cur != nil {
 				where += " @ " + fr.fn.Prog.Fset.Position(fr.cur.Pos()).String() + " : " + fr.cur.String()
+			}
+			for c, n := fr.caller, 0; c != nil && n < 10; c, n = c.caller, n+1 {
+				where += " <- " + c.fi.name
 			}
 			panic(engineCrash{msg: fmt.Sprint(p), stack: string(debug.Stack()), where: where})
 		}
